@@ -118,6 +118,18 @@ SetAt(nodes, ip, new) ==
   ELSE [nodes EXCEPT ![ip[1]] = [@ EXCEPT !.subs = SetAt(@, Tail(ip), new)]]
 RECURSIVE PathStatus(_, _, _)   \* status in force at the node at ip (explicit statements on the way, else inh)
 PathStatus(nodes, ip, inh) == LET s == StOf(nodes[ip[1]], inh) IN IF Len(ip) = 1 THEN s ELSE PathStatus(nodes[ip[1]].subs, Tail(ip), s)
+RECURSIVE PathStatusOf(_, _, _, _)   \* the same, counting only the explicit statuses of nodes that file f owns
+PathStatusOf(nodes, ip, inh, f) == LET n == nodes[ip[1]]  s == IF n.own = f THEN StOf(n, inh) ELSE inh
+                                   IN IF Len(ip) = 1 THEN s ELSE PathStatusOf(n.subs, Tail(ip), s, f)
+UsesModes == {"uses-file", "uses-module", "uses-other"}
+\* rel: "file" (grouping and uses in the same file), "module" (same module, different files), "other".
+\* The path of a refine (and of an augment inside uses) refers to the nodes it names: a uses may not reach into nodes
+\* that are more obsolete than itself in its own module (status in force along the path = explicit ones on the way).
+PathRefMarks(nodes, ip, ust, rel) ==
+  IF StRank(ust) >= StRank(PathStatus(nodes, ip, "current")) THEN <<>>
+  ELSE IF rel = "file" THEN <<Err("status-reference")>>
+  ELSE IF rel = "module" THEN <<Unj("status of a reference between a module and its submodule")>>
+  ELSE <<>>
 RECURSIVE PathHas(_, _, _)   \* does a node on the way to ip carry a statement kw?
 PathHas(nodes, ip, kw) == Has(nodes[ip[1]], kw) \/ (Len(ip) > 1 /\ PathHas(nodes[ip[1]].subs, Tail(ip), kw))
 
@@ -157,11 +169,10 @@ RefineNode(t, r) ==
              ELSE IF c.kw = "must" THEN [x EXCEPT !.subs = @ \o <<c>>]
              ELSE SetSingle(x, c)
   IN F[Len(r.subs)]
-ApplyRefine(nodes, r, M) ==
+ApplyRefine(nodes, r, M, ust, rel) ==
   LET ip == Locate(nodes, r.arg, M)
   IN IF ip = <<>> THEN nodes \o <<Err("refine-target")>>
-     ELSE IF PathHas(nodes, ip, "status") THEN nodes \o <<Unj("refine through a node with a status")>>
-     ELSE SetAt(nodes, ip, <<RefineNode(GetAt(nodes, ip), r)>>)
+     ELSE SetAt(nodes, ip, <<RefineNode(GetAt(nodes, ip), r)>>) \o PathRefMarks(nodes, ip, ust, rel)
 
 \* ------------------------------------------------------------ mandatory nodes (RFC 6020 section 3.1)
 RECURSIVE IsMand(_)
@@ -196,10 +207,10 @@ AugmentAt(nodes, a, chain, M, st, d, mode) ==
            \o (IF t.kw = "choice" /\ Has(a, "uses") THEN <<Err("augment-uses-into-choice")>> ELSE <<>>)
            \o (IF other /\ \E i \in 1..Len(kids2) : IsMand(kids2[i]) THEN <<Err("augment-mandatory")>> ELSE <<>>)
            \o (IF other /\ \E i \in 1..Len(kids2) : HasMandInCase(kids2[i]) THEN <<Unj("case with a mandatory member augmented into another module")>> ELSE <<>>)
-           \o (IF PathHas(nodes, ip, "!aug") THEN <<Unj("augment into a node that another augment introduces (order)")>> ELSE <<>>)
-           \o (IF mode = "uses" /\ PathHas(nodes, ip, "status") THEN <<Unj("augment inside uses through a node with a status")>> ELSE <<>>)
-           \o (IF mode # "uses" /\ StRank(StOf(a, st)) < StRank(PathStatus(nodes, ip, "current"))
-               THEN (IF a.own = t.own THEN <<Err("status-reference")>>
+           \o (IF mode \in UsesModes THEN PathRefMarks(nodes, ip, st, CASE mode = "uses-file" -> "file" [] mode = "uses-module" -> "module" [] OTHER -> "other") ELSE <<>>)
+           \o (IF mode \notin UsesModes /\ StRank(StOf(a, st)) < StRank(PathStatus(nodes, ip, "current"))
+               THEN (IF a.own = t.own /\ StRank(StOf(a, st)) < StRank(PathStatusOf(nodes, ip, "current", a.own)) THEN <<Err("status-reference")>>
+                     ELSE IF a.own = t.own THEN <<Unj("status inherited along the path from a node of another module")>>
                      ELSE IF ModOfFileName(M, a.own) = ModOfFileName(M, t.own) THEN <<Unj("status of a reference between a module and its submodule")>>
                      ELSE <<>>)
                ELSE <<>>)
@@ -245,9 +256,10 @@ ExpandUses(u, chain, M, st, d) ==
          body1 == [i \in 1..Len(body0) |-> SetOwn(body0[i], u.own)]
          body2 == Distribute(body1, u)
          refs == Sub(u, "refine")
-         R[i \in 0..Len(refs)] == IF i = 0 THEN body2 ELSE ApplyRefine(R[i-1], refs[i], M)
+         rel == IF g.own = u.own THEN "file" ELSE IF ModOfFileName(M, g.own) = lm THEN "module" ELSE "other"
+         R[i \in 0..Len(refs)] == IF i = 0 THEN body2 ELSE ApplyRefine(R[i-1], refs[i], M, ust, rel)
          augs == Sub(u, "augment")
-         A[i \in 0..Len(augs)] == IF i = 0 THEN R[Len(refs)] ELSE AugmentAt(A[i-1], augs[i], chain, M, ust, d, "uses")
+         A[i \in 0..Len(augs)] == IF i = 0 THEN R[Len(refs)] ELSE AugmentAt(A[i-1], augs[i], chain, M, ust, d, "uses-" \o rel)
      IN refErr \o A[Len(augs)]
 
 ExpandFile(f, M) == [f EXCEPT !.subs = ExpandBody(@, << TopGroupings(M, f.arg[1]) >>, M, "current", 0)]
@@ -264,7 +276,10 @@ InlineLocalAugFile(f, M) ==
         IF i = 0 THEN f
         ELSE LET x == F[i-1]  a == augs[i] IN
              IF Inlinable(x, a, M) THEN [x EXCEPT !.subs = AugmentAt(Without(x.subs, a), a, <<>>, M, "current", 0, "local")] ELSE x
-  IN F[Len(augs)]
+      R == F[Len(augs)]
+  IN IF \E a \in Range(Sub(R, "augment")) : Inlinable(R, a, M)
+     THEN [R EXCEPT !.subs = @ \o <<Unj("augment into a node that a later augment introduces (order)")>>]
+     ELSE R
 InlineLocalAug(M) == [i \in 1..Len(M) |-> InlineLocalAugFile(M[i], M)]
 
 \* ------------------------------------------------------------ module-level augments and deviations
@@ -279,9 +294,13 @@ ApplyAugments(M) ==
         ELSE LET X == F[k-1]  i == as[k][1]  a == as[k][2]
                  X1 == [X EXCEPT ![i] = [@ EXCEPT !.subs = Without(@, a)]]
                  tf == TargetFile(X1, a.arg)
-             IN IF tf = 0 THEN [X1 EXCEPT ![i] = [@ EXCEPT !.subs = @ \o <<Err("augment-target")>>]]
+             IN IF tf = 0 THEN [X1 EXCEPT ![i] = [@ EXCEPT !.subs = @ \o <<St("!late", a.arg, <<>>)>>]]
                 ELSE [X1 EXCEPT ![tf] = [@ EXCEPT !.subs = AugmentAt(@, a, <<>>, X1, "current", 0, "module")]]
-  IN F[Len(as)]
+      R == F[Len(as)]
+      \* a target that was missing when its augment came up: an error, unless a LATER augment introduces it (the RFC
+      \* fixes no order: not judged)
+      Settle(st) == IF st.kw # "!late" THEN st ELSE IF TargetFile(R, st.arg) # 0 THEN Unj("augment into a node that a later augment introduces (order)") ELSE Err("augment-target")
+  IN [i \in 1..Len(R) |-> [R[i] EXCEPT !.subs = [j \in 1..Len(@) |-> Settle(@[j])]]]
 
 \* which properties the grammar allows on which node kind
 AllowedOn(kw, kind) ==
